@@ -62,7 +62,8 @@ impl WsSpec {
             if let Some(d) = p.parent() {
                 let _ = std::fs::create_dir_all(d);
             }
-            std::fs::write(&p, content.replace("${ROOT}", &root.to_string_lossy())).expect("write extra file");
+            let parent = root.parent().map(|p| p.to_string_lossy().to_string()).unwrap_or_default();
+            std::fs::write(&p, content.replace("${ROOT}", &root.to_string_lossy()).replace("${PARENT}", &parent)).expect("write extra file");
         }
         root
     }
@@ -82,7 +83,8 @@ pub fn join_rel(dir: &str, name: &str) -> String {
     }
 }
 pub fn parent_dir(dir: &str) -> Option<String> {
-    if dir.is_empty() {
+    // ".." is the directory that holds the workspace: files next to the workspace are not below its root
+    if dir.is_empty() || dir == ".." {
         None
     } else {
         Some(dir_of(dir))
@@ -291,6 +293,9 @@ pub fn gen_ws(rng: &mut Rng, o: &WsOpts) -> WsSpec {
     let mut spec = WsSpec { files, ..Default::default() };
     if o.venv {
         add_venv(rng, &mut spec, &names);
+        if rng.chance(350) {
+            add_external_editable(rng, &mut spec, &names);
+        }
     }
     rng.shuffle(&mut spec.files);
     let _ = imported_names;
@@ -369,6 +374,32 @@ pub fn add_venv(rng: &mut Rng, spec: &mut WsSpec, names: &[String]) {
         };
         spec.extra.push((format!("{}/{}", sp, pth), "${ROOT}/plugsrc\n".to_string()));
     }
+}
+
+/// An editable install whose sources live OUTSIDE the workspace (next to it): its pytest11 plugin is
+/// third-party although it is not in site-packages.
+pub fn add_external_editable(rng: &mut Rng, spec: &mut WsSpec, names: &[String]) {
+    let sp = SITE;
+    let (dist, module) = match rng.below(3) {
+        0 => ("extplug", "extplug"),
+        1 => ("ext-plug", "ext_plug"),
+        _ => ("Ext.Plug", "ext_plug"),
+    };
+    let rel = format!("../extsrc/{}/plugin.py", module);
+    spec.files.push(PyFile { rel: rel.clone(), items: vec![Item::Fixture(Fx { func: "ext_only".into(), ..Default::default() }), Item::Fixture(Fx { func: rng.pick(names).clone(), ..Default::default() })] });
+    spec.files.push(PyFile { rel: format!("../extsrc/{}/__init__.py", module), items: vec![] });
+    spec.third_party_files.push(rel);
+    let info = format!("{}/{}-2.0.dist-info", sp, dist);
+    spec.extra.push((format!("{}/direct_url.json", info), "{\"url\": \"file://${PARENT}/extsrc\", \"dir_info\": {\"editable\": true}}".to_string()));
+    spec.extra.push((format!("{}/entry_points.txt", info), format!("[pytest11]\next = {}.plugin\n", module)));
+    let norm = dist.replace(['-', '.'], "_").to_lowercase();
+    let pth = match rng.below(4) {
+        0 => format!("__editable__.{}-2.0.pth", norm),
+        1 => format!("_{}.pth", norm),
+        2 => format!("__editable__.{}-2.0.pth", dist),
+        _ => format!("{}.pth", norm),
+    };
+    spec.extra.push((format!("{}/{}", sp, pth), "# editable\nimport sys\n${PARENT}/extsrc\n".to_string()));
 }
 
 /// All usage/def tokens of a workspace with absolute positions.
